@@ -1375,4 +1375,334 @@ theorem binned_iff (b : Nat) (hb : 0 < b) (sizes : List Nat) (pts : List (Nat ×
         exact absurd h hn
     simp [binnedChecked, this]
 
+
+/-! ### reviewer (audit/review-C01-C10.md, C10) -/
+
+/-- **C10.negative_offsets_refused** — integer coordinates (repair 0868386): `from_local_coordinates` succeeds exactly for
+`0 ≤ offset < size` (then global = chromosome offset + offset); an integer interval passes the globalisation checks
+exactly when `0 ≤ start ≤ stop ≤ size` and `start < size`; the shipped rule (only `offset ≥ size` rejected) mapped
+('b', −1) on sizes [3, 2] to global position 2, which is the LAST position of the neighbouring chromosome 'a'. -/
+theorem negative_offsets_refused (sizes : List Nat) :
+    (∀ c (p : Int) g, fromLocalZ sizes c p = some g ↔ c < sizes.length ∧ 0 ≤ p ∧ p < size sizes c ∧ (g : Int) = offset sizes c + p) ∧
+    (∀ iv : IvZ, (∃ v, iv.checked = some v ∧ v.valid sizes = true) ↔
+      iv.c < sizes.length ∧ 0 ≤ iv.s ∧ iv.s ≤ iv.e ∧ iv.s < size sizes iv.c ∧ iv.e ≤ size sizes iv.c) ∧
+    (fromLocalOldZ [3, 2] 1 (-1) = some 2 ∧ toLocal [3, 2] 2 = (0, 2) ∧ fromLocalZ [3, 2] 1 (-1) = none) := by
+  refine ⟨?_, ?_, by decide⟩
+  · intro c p g
+    simp only [fromLocalZ]
+    by_cases hp : p < 0
+    · simp [hp]; omega
+    · simp only [hp, if_false, fromLocal]
+      by_cases h : c < sizes.length ∧ p.toNat < size sizes c
+      · rw [if_pos h]
+        simp only [Option.some.injEq]
+        constructor
+        · intro hg; subst hg; exact ⟨h.1, by omega, by omega, by omega⟩
+        · intro ⟨_, _, _, hg⟩; omega
+      · rw [if_neg h]
+        constructor
+        · intro hh; cases hh
+        · intro ⟨h1, h2, h3, _⟩; exact absurd ⟨h1, by omega⟩ h
+  · intro iv
+    simp only [IvZ.checked]
+    by_cases h : 0 ≤ iv.s ∧ iv.s ≤ iv.e
+    · rw [if_pos h]
+      constructor
+      · intro ⟨v, hv, hval⟩
+        simp only [Option.some.injEq] at hv
+        subst hv
+        obtain ⟨a, b, c, d⟩ := (valid_iff _ _).mp hval
+        simp only [] at a b c d
+        omega
+      · intro ⟨a, b, c, d, e⟩
+        refine ⟨_, rfl, (valid_iff _ _).mpr ?_⟩
+        simp only []
+        omega
+    · simp only [h, if_false]
+      constructor
+      · intro ⟨v, hv, _⟩; cases hv
+      · intro ⟨_, a, b, _, _⟩; exact absurd ⟨a, b⟩ h
+
+
+/-! ### the streamed path as a walk over the runs -/
+
+theorem assignRuns_nil (m : Nat) : ∀ k, assignRuns k m [] = List.replicate m [] := by
+  induction m with
+  | zero => intro k; rfl
+  | succ m ih => intro k; simp [assignRuns, ih, List.replicate_succ]
+
+theorem assignRuns_sorted (m : Nat) : ∀ (k : Nat) (ivs : List Iv), ivs.Pairwise (fun a b => a.c ≤ b.c) →
+    (∀ iv ∈ ivs, k ≤ iv.c) → (∀ iv ∈ ivs, iv.c < k + m) →
+    assignRuns k m (runs ivs) = (List.range' k m).map (fun c => ivs.filter (fun iv => iv.c = c)) := by
+  induction m with
+  | zero =>
+    intro k ivs _ hlo hhi
+    rfl
+  | succ m ih =>
+    intro k ivs hs hlo hhi
+    have hdl := dropWhile_lo ivs k hs hlo
+    have hds : (ivs.dropWhile (fun iv => iv.c = k)).Pairwise (fun a b => a.c ≤ b.c) :=
+      hs.sublist (List.dropWhile_sublist _)
+    have hdh : ∀ iv ∈ ivs.dropWhile (fun iv => iv.c = k), iv.c < (k + 1) + m := by
+      intro iv h
+      have := hhi iv ((List.dropWhile_sublist _).subset h); omega
+    have IH := ih (k + 1) _ hds hdl hdh
+    have hrest : (List.range' (k + 1) m).map (fun c => ivs.filter (fun iv => iv.c = c)) =
+        (List.range' (k + 1) m).map (fun c => (ivs.dropWhile (fun iv => iv.c = k)).filter (fun iv => iv.c = c)) := by
+      apply List.map_congr_left
+      intro c hc
+      have : c ≠ k := by have := (List.mem_range'_1.mp hc).1; omega
+      rw [filter_dropWhile ivs k c this]
+    rw [List.range'_succ, List.map_cons, hrest, filter_eq_takeWhile ivs k hs hlo]
+    by_cases ha : ivs.takeWhile (fun iv => iv.c = k) = []
+    · have hd : ivs.dropWhile (fun iv => iv.c = k) = ivs := by
+        have := List.takeWhile_append_dropWhile (p := fun iv => decide (iv.c = k)) (l := ivs)
+        rw [ha, List.nil_append] at this; exact this
+      rw [ha]
+      rw [hd] at IH ⊢
+      cases hr : runs ivs with
+      | nil => rw [hr] at IH; simp [assignRuns, IH]
+      | cons g t =>
+        -- the first run is not chromosome k (no entry has chromosome k)
+        have hg : g.1 ≠ k := by
+          cases ivs with
+          | nil => simp [runs] at hr
+          | cons x r =>
+            obtain ⟨g', t', hgt⟩ := runs_head x r
+            rw [hgt] at hr
+            simp only [List.cons.injEq] at hr
+            have hx : x.c ≠ k := by
+              intro hxk; simp [List.takeWhile_cons, hxk] at ha
+            rw [← hr.1]; exact hx
+        rw [hr] at IH
+        simp [assignRuns, hg, IH]
+    · rw [runs_span ivs k ha]
+      simp [assignRuns, IH]
+
+/-- **C10.stream_runs_per_chromosome** — the streamed path modelled as it runs: the entries are grouped into consecutive
+chromosome runs, the genome order is walked and every chromosome gets its run or the empty table (`assignRuns`), zipped
+with the sizes, single-contig pile-up per table. For entries in genome order on known chromosomes this is, per
+chromosome, the pile-up / mask of that chromosome's own entries (all-zero of full length where there are none), and
+for valid entries it equals the per-chromosome views of the in-memory computation. -/
+theorem stream_runs_per_chromosome (sizes : List Nat) (ivs : List Iv) (hs : ivs.Pairwise (fun a b => a.c ≤ b.c))
+    (hn : ∀ iv ∈ ivs, iv.c < sizes.length) :
+    pileupStreamRuns sizes ivs = (List.range sizes.length).map (specPileupChrom sizes ivs) ∧
+    maskStreamRuns sizes ivs = (List.range sizes.length).map (specMaskChrom sizes ivs) ∧
+    ((∀ iv ∈ ivs, iv.valid sizes = true) →
+      (pileupGlobal sizes ivs).map (toDict sizes) = some (pileupStreamRuns sizes ivs) ∧
+      (maskGlobal sizes ivs).map (toDict sizes) = some (maskStreamRuns sizes ivs)) := by
+  have ha := assignRuns_sorted sizes.length 0 ivs hs (fun _ _ => Nat.zero_le _) (by simpa using hn)
+  have h1 : pileupStreamRuns sizes ivs = (List.range sizes.length).map (specPileupChrom sizes ivs) := by
+    rw [pileupStreamRuns, ha, ← List.range_eq_range', ← (stream_per_chromosome sizes ivs).1, pileupStream]
+    apply List.ext_getElem
+    · simp
+    · intro i h1 h2
+      simp only [List.length_map, List.length_zip, List.length_range] at h1
+      simp [List.getElem_zip, size, List.getD_eq_getElem?_getD, List.getElem?_eq_getElem (show i < sizes.length by omega)]
+  have h2 : maskStreamRuns sizes ivs = (List.range sizes.length).map (specMaskChrom sizes ivs) := by
+    rw [maskStreamRuns, h1, List.map_map]; rfl
+  refine ⟨h1, h2, fun hv => ?_⟩
+  obtain ⟨a, b⟩ := cover_local sizes ivs hv
+  rw [a, b, h1, h2]; exact ⟨rfl, rfl⟩
+
+example : pileupStreamRuns [2, 3, 2] [{ c := 0, s := 0, e := 2 }, { c := 2, s := 1, e := 2 }] = [[1, 1], [0, 0, 0], [0, 1]] := by decide
+
+
+/-! ### reviewer items 4-7, sequence extraction, non-interference -/
+
+/-- **C10.all_traced** — every kernel listed here was really traced from the running code this run: if a trace fails the
+generator falls back to the hand formula and drops the name from `Gen.C10.traced`, which breaks THIS obligation. -/
+theorem all_traced : Gen.C10.traced =
+    ["clipGenome", "clipGeometry", "extendGeometry", "extendGenome", "locStart", "locStop", "locCenter", "locStartU", "locCenterU"] := by
+  decide
+
+/-- **C10.merge_grouping_old_wrong_answer** — the grouping shipped between 5ae8cf0 and 57736e2 (`groupby` with its
+first-key = last-key fast path, no genome-order check) on chr1 [0,2), chr2 [0,1), chr1 [1,3): ONE group, the answer is
+chr1 [0,3) alone — the chr2 entry is gone (what the real package returned) — while the specification keeps both. -/
+theorem merge_grouping_old_wrong_answer :
+    mergeGroupedOld 0 [{ c := 0, s := 0, e := 2 }, { c := 1, s := 0, e := 1 }, { c := 0, s := 1, e := 3 }] =
+      some [{ c := 0, s := 0, e := 3 }] ∧
+    specMerge 0 2 [{ c := 0, s := 0, e := 2 }, { c := 1, s := 0, e := 1 }, { c := 0, s := 1, e := 3 }] =
+      some [{ c := 0, s := 0, e := 3 }, { c := 1, s := 0, e := 1 }] ∧
+    mergeChecked 0 [5, 5] [{ c := 0, s := 0, e := 2 }, { c := 1, s := 0, e := 1 }, { c := 0, s := 1, e := 3 }] = none := by
+  decide
+
+theorem includedSizes_eq (sizes : List Nat) : ∀ (ign : List Bool),
+    includedSizes sizes ign = ((sizes.zip ign).filter (fun y => !y.2)).map (·.1) := by
+  induction sizes with
+  | nil => intro ign; cases ign <;> simp [includedSizes]
+  | cons s ss ih =>
+    intro ign
+    cases ign with
+    | nil => simp [includedSizes]
+    | cons g gs => cases g <;> simp [includedSizes, ih gs]
+
+theorem size_includedSizes (sizes : List Nat) : ∀ (ign : List Bool) (c : Nat), sizes.length = ign.length → c < ign.length →
+    ign.getD c false = false →
+    size (includedSizes sizes ign) ((ign.take c).filter (!·)).length = size sizes c := by
+  induction sizes with
+  | nil => intro ign c hl hc; simp at hl; rw [← hl] at hc; simp at hc
+  | cons s ss ih =>
+    intro ign c hl hc hg
+    cases ign with
+    | nil => simp at hc
+    | cons g gs =>
+      cases c with
+      | zero =>
+        have : g = false := by simpa using hg
+        subst this
+        simp [includedSizes, size]
+      | succ c =>
+        have hl' : ss.length = gs.length := by simpa using hl
+        have hc' : c < gs.length := by simpa using hc
+        have hg' : gs.getD c false = false := by simpa using hg
+        have := ih gs c hl' hc' hg'
+        cases g
+        · simp only [includedSizes, Bool.false_eq_true, if_false, List.take_succ_cons, List.filter_cons, Bool.not_false,
+            if_true, List.length_cons, size_cons_succ]
+          rw [this]
+        · simp only [includedSizes, if_true, List.take_succ_cons, List.filter_cons, Bool.not_true, Bool.false_eq_true, if_false]
+          rw [this]
+          first | rfl | simp [size]
+
+theorem length_filter_zip (sizes : List Nat) : ∀ (ign : List Bool), sizes.length = ign.length →
+    ((sizes.zip ign).filter (fun y => !y.2)).length = (ign.filter (!·)).length := by
+  induction sizes with
+  | nil => intro ign h; cases ign <;> simp_all
+  | cons s ss ih =>
+    intro ign h
+    cases ign with
+    | nil => simp at h
+    | cons g gs =>
+      have := ih gs (by simpa using h)
+      cases g <;> simp [this]
+
+/-- **C10.included_sizes_spec** — `includedSizes` (the `_chrom_size_dict` every driver op works on) is the list of the
+non-ignored sizes in genome order, it has `nIncluded` entries, and the size found under an included chromosome's code
+(its rank) is that chromosome's own size; `maskDataZ` (the integer-coordinate rows) filters and re-indexes exactly like
+`maskData` (`mask_data_spec`). -/
+theorem included_sizes_spec (sizes : List Nat) (ign : List Bool) (hl : sizes.length = ign.length) :
+    includedSizes sizes ign = ((sizes.zip ign).filter (fun y => !y.2)).map (·.1) ∧
+    (includedSizes sizes ign).length = nIncluded ign ∧
+    (∀ c, c < ign.length → ign.getD c false = false → size (includedSizes sizes ign) (encodeIdx ign c) = size sizes c) ∧
+    (∀ ivs : List IvZ, (∀ iv ∈ ivs, iv.c < ign.length) →
+      maskDataZ ign ivs = (ivs.filter (fun iv => !(ign.getD iv.c false))).map
+        (fun iv => { iv with c := ((ign.take iv.c).filter (!·)).length })) := by
+  refine ⟨includedSizes_eq sizes ign, ?_, ?_, ?_⟩
+  · rw [includedSizes_eq, List.length_map, nIncluded]
+    exact length_filter_zip sizes ign hl
+  · intro c hc hg
+    have : encodeIdx ign c = ((ign.take c).filter (!·)).length := by unfold encodeIdx; rw [hg]; simp
+    rw [this]; exact size_includedSizes sizes ign c hl hc hg
+  · intro ivs h
+    unfold maskDataZ
+    rw [List.filter_map]
+    have hf : ivs.filter ((fun iv : IvZ => decide (iv.c < nIncluded ign)) ∘ fun iv => { iv with c := encodeIdx ign iv.c }) =
+        ivs.filter (fun iv => !(ign.getD iv.c false)) := by
+      apply List.filter_congr
+      intro iv hiv
+      have := encodeIdx_lt_iff ign iv.c (h iv hiv)
+      simp only [Function.comp]
+      cases hg : ign.getD iv.c false
+      · simp [this.mpr hg]
+      · have : ¬ encodeIdx ign iv.c < nIncluded ign := fun x => absurd (this.mp x) (by rw [hg]; decide)
+        simp [this]
+    rw [hf]
+    apply List.map_congr_left
+    intro iv hiv
+    have hg : ign.getD iv.c false = false := by
+      have := (List.mem_filter.mp hiv).2
+      cases h' : ign.getD iv.c false
+      · rfl
+      · rw [h'] at this; exact absurd this (by decide)
+    have : encodeIdx ign iv.c = ((ign.take iv.c).filter (!·)).length := by
+      unfold encodeIdx; rw [hg]; simp
+    rw [this]
+
+
+/-- **C10.sort_stable** — `sorted()` is stable and looks at (chromosome, start, stop) only: two entries that are in key order
+in the input (in particular two entries with the SAME key that differ in strand or any other column) keep their relative
+order in the output. -/
+theorem sort_stable (ivs : List Iv) (a b : Iv) (hab : keyLe a b = true) (h : [a, b].Sublist ivs) :
+    [a, b].Sublist (sortGenome ivs) :=
+  List.pair_sublist_mergeSort keyLe_trans keyLe_total hab h
+
+example : keyLe { c := 0, s := 1, e := 2, fwd := true } { c := 0, s := 1, e := 2, fwd := false } = true := by decide
+
+theorem compBase_involutive (b : Nat) : compBase (compBase b) = b := by
+  unfold compBase
+  repeat' split
+  all_goals omega
+
+theorem revComp_involutive (l : List Nat) : revComp (revComp l) = l := by
+  simp [revComp, List.map_reverse, Function.comp_def, compBase_involutive]
+
+/-- **C10.extract_seq_revcomp** — sequence under a (valid) interval: the slice `[start, stop)` of the interval's OWN chromosome's
+sequence, and on the `-` strand (stranded extraction) its reverse complement (`A↔T`, `C↔G`, reversed); reverse complement is
+an involution. Letters of neighbouring chromosomes never appear. -/
+theorem extract_seq_revcomp (seqs : List (List Nat)) (stranded : Bool) (iv : Iv)
+    (hv : iv.valid (seqs.map List.length) = true) :
+    extractSeqRow (seqs.map List.length) seqs.flatten stranded iv = some (specSeqRow seqs stranded iv) ∧
+    (∀ l, revComp (revComp l) = l) ∧
+    revComp [65, 67, 71, 84, 78] = [78, 65, 67, 71, 84] := by
+  refine ⟨?_, revComp_involutive, by decide⟩
+  obtain ⟨h1, h2, h3, _⟩ := (valid_iff _ iv).mp hv
+  have hc : iv.c < seqs.length := by simpa using h1
+  have hsz : size (seqs.map List.length) iv.c = (seqs.getD iv.c []).length := size_lengths seqs iv.c
+  simp only [extractSeqRow, toGlobal, hv, if_true, specSeqRow]
+  have e : offset (seqs.map List.length) iv.c + iv.e - (offset (seqs.map List.length) iv.c + iv.s) = iv.e - iv.s := by omega
+  rw [e, flatten_drop_take seqs iv.c iv.s (iv.e - iv.s) hc (by omega)]
+
+example : ({ c := 1, s := 0, e := 2, fwd := false } : Iv).valid ([[65, 67], [71, 84, 84]].map List.length) = true := by decide
+
+theorem specPileupChrom_eq_pile1 (sizes : List Nat) (ivs : List Iv) (c : Nat) :
+    specPileupChrom sizes ivs c = pile1 (size sizes c) ((ivs.filter (fun iv => iv.c = c)).map (fun iv => (iv.s, iv.e))) := by
+  simp only [specPileupChrom, pile1]
+  apply List.map_congr_left
+  intro p _
+  simp [covCount, List.filter_map]
+
+/-- **C10.non_interference** — the pile-up / mask of chromosome `c` depends on nothing but `c`'s own size and the (start, stop)
+pairs of the entries on `c`: two genomes / entry lists that agree on these (whatever the other chromosomes, their sizes,
+their entries and `c`'s position in the genome are) give the same array for it. -/
+theorem non_interference (sizes sizes' : List Nat) (ivs ivs' : List Iv) (c c' : Nat)
+    (hv : ∀ iv ∈ ivs, iv.valid sizes = true) (hv' : ∀ iv ∈ ivs', iv.valid sizes' = true)
+    (hc : c < sizes.length) (hc' : c' < sizes'.length) (hsz : size sizes c = size sizes' c')
+    (hent : (ivs.filter (fun iv => iv.c = c)).map (fun iv => (iv.s, iv.e)) =
+            (ivs'.filter (fun iv => iv.c = c')).map (fun iv => (iv.s, iv.e))) :
+    (pileupGlobal sizes ivs).map (fun d => extractChrom sizes d c) =
+      (pileupGlobal sizes' ivs').map (fun d => extractChrom sizes' d c') ∧
+    (maskGlobal sizes ivs).map (fun d => extractChrom sizes d c) =
+      (maskGlobal sizes' ivs').map (fun d => extractChrom sizes' d c') := by
+  have key : ∀ (sz : List Nat) (l : List Iv) (k : Nat), (∀ iv ∈ l, iv.valid sz = true) → k < sz.length →
+      (pileupGlobal sz l).map (fun d => extractChrom sz d k) = some (specPileupChrom sz l k) ∧
+      (maskGlobal sz l).map (fun d => extractChrom sz d k) = some (specMaskChrom sz l k) := by
+    intro sz l k hvl hk
+    obtain ⟨a, b⟩ := cover_local sz l hvl
+    constructor
+    · cases hp : pileupGlobal sz l with
+      | none => rw [hp] at a; simp at a
+      | some d =>
+        rw [hp] at a
+        simp only [Option.map_some, Option.some.injEq, toDict] at a ⊢
+        have := congrArg (fun L => L.getD k []) a
+        simpa [List.getD_eq_getElem?_getD, List.getElem?_map, List.getElem?_range hk] using this
+    · cases hp : maskGlobal sz l with
+      | none => rw [hp] at b; simp at b
+      | some d =>
+        rw [hp] at b
+        simp only [Option.map_some, Option.some.injEq, toDict] at b ⊢
+        have := congrArg (fun L => L.getD k []) b
+        simpa [List.getD_eq_getElem?_getD, List.getElem?_map, List.getElem?_range hk] using this
+  obtain ⟨a1, b1⟩ := key sizes ivs c hv hc
+  obtain ⟨a2, b2⟩ := key sizes' ivs' c' hv' hc'
+  have hp : specPileupChrom sizes ivs c = specPileupChrom sizes' ivs' c' := by
+    rw [specPileupChrom_eq_pile1, specPileupChrom_eq_pile1, hsz, hent]
+  refine ⟨by rw [a1, a2, hp], by rw [b1, b2, specMaskChrom, specMaskChrom, hp]⟩
+
+example : size [5, 2] 1 = size [2] 0 ∧
+    (([{ c := 1, s := 0, e := 2 }] : List Iv).filter (fun iv => iv.c = 1)).map (fun iv => (iv.s, iv.e)) =
+    (([{ c := 0, s := 0, e := 2 }] : List Iv).filter (fun iv => iv.c = 0)).map (fun iv => (iv.s, iv.e)) := by decide
+
+
 end C10
